@@ -18,20 +18,22 @@ EXHAUSTIVE = {"quick": "all CYC(n) n<=3, all disjoint X,Y,Z (n=4: 1200 sampled)"
 TRUSTED = ["networkx strongly_connected_components / complete_graph and their yield order taken at face value",
            "m_separated (property C01) is what sigma_separated delegates to"]
 ASSUMPTIONS = ["default edge-type names", "only directed and bidirected layers (the property's domain)", "int labels (label families: C15)"]
-LEVEL_TEXT = ("Coq theorems for ALL graphs: acy_nodes_edges (the model's directed / bidirected edges are exactly the property's "
-              "characterisation, with 'strongly connected component' = mutual directed reachability by definition), acy_acyclic, "
-              "acy_idempotent_on_acyclic, and sigma_sep_dec_reflects (the brute-force oracle decides sigma-separation as defined on simple "
-              "paths). The sigma clause 'm-separation in the acyclification <-> every path is sigma-blocked' (path definitions on both "
-              "sides) is proved by kernel computation: sigma_equiv_bounded_3 for ALL directed mixed graphs on <=3 nodes (512 graphs on 3 "
-              "nodes, all disjoint X,Y,Z) and sigma_equiv_bounded_4_directed for all 4096 directed graphs on 4 nodes without bidirected "
-              "edges; beyond that (4 nodes with bidirected edges: 50000 sampled in the thorough tier, random graphs up to 6 nodes) it "
-              "is observed through the extracted oracle only. The code is tied to the model by correspondence.")
-LEVEL_NOTE = ("The unbounded sigma-separation theorem (Forre-Mooij 2017 / Mooij-Claassen 2020, Prop. A.19) is stated in C19/Spec.v "
-              "(sigma_equiv_stmt) and not attempted. The bounded theorems quantify over the enumerated graphs (edge lists = sub-lists of "
-              "the canonical pair list; cyc_enumeration_complete shows every edge set occurs up to set equality; invariance of the "
-              "definitions under set-equal edge lists is by construction, not a theorem). copy=True integrity and exception-free "
-              "behaviour are observed by correspondence only; sigma_separated delegates to m_separated (property C01).")
-TECHNIQUE = "Coq proof (model = characterisation, unbounded; sigma clause bounded by vm_compute) + extracted-model correspondence (tie K)"
+LEVEL_TEXT = ("ALL clauses about the formal graph are Coq theorems for ALL directed mixed graphs (any cycles, any bidirected edges): "
+              "acy_nodes_edges (the model's directed / bidirected edges are exactly the property's characterisation, with 'strongly "
+              "connected component' = mutual directed reachability by definition), acy_acyclic, acy_idempotent_on_acyclic, and the sigma "
+              "clause sigma_equiv: m-separation in the acyclification (path definition) <-> every simple path between X and Y is "
+              "sigma-blocked by Z (path definition), UNBOUNDED, with its two directions msep_acy_implies_sigma_sep / "
+              "sigma_sep_implies_msep_acy, and sigma_equiv_dec / sigma_sep_dec_reflects for the boolean oracles the harness runs. "
+              "Independently of that proof the same equivalence is re-checked by kernel computation on all directed mixed graphs on "
+              "<=3 nodes (sigma_equiv_bounded_3) and on all 90112 graphs on 4 nodes with any directed layer and <=2 bidirected edges "
+              "(sigma_equiv_bounded_4_le2_bidirected). The code is tied to the model by correspondence.")
+LEVEL_NOTE = ("The unbounded proof goes through walks: sigma-open path of G -> open walk of the acyclification -> m-connecting path "
+              "(Graph/Walks.open_walk_to_path, acyclic case), and m-connecting path of the acyclification -> sigma-open walk of G -> "
+              "sigma-connecting path (loop removal that needs no acyclicity, C19/SigmaConv.v). The bounded theorems quantify over the "
+              "enumerated graphs (cyc_enumeration_complete: every edge set occurs up to set equality). copy=True integrity, object kinds, "
+              "custom edge-type names and exception-free behaviour are observed by correspondence only; sigma_separated delegates to "
+              "m_separated (property C01).")
+TECHNIQUE = "Coq proof (model = characterisation and sigma clause, unbounded; plus vm_compute re-check on small graphs) + extracted-model correspondence (tie K)"
 SPOT_N = 10
 NAME_SETS = [["dir", "bidir"], ["bidirected", "directed"], ["->", "<->"]]
 
